@@ -42,7 +42,7 @@ Norm(ops) == FoldLeft(NormStep, <<>>, ops)
 \* which violation of P.screen this is: clear(n) whose removed lines fold into more than n rows is the region of
 \* the defect found on the pinned tree (the code counted lines, not rows); the row counter stays wrong afterwards,
 \* so a later call of the same trace may be the first to show it
-Wraps(i, n) == \E k \in (Len(content[i]) - n + 1)..Len(content[i]) : Len(content[i][k]) > term.w
+Wraps(i, n) == \E k \in (IF n >= Len(content[i]) THEN 1 ELSE Len(content[i]) - n + 1)..Len(content[i]) : Len(content[i][k]) > term.w
 TaintNow == taint \/ (ansi /\ E.op = "clearn" /\ InDomain(E.op, E.s, E.n) /\ Wraps(E.s, E.n))
 ScreenKey == IF TaintNow THEN "clearn-wrapped" ELSE E.op
 
